@@ -169,15 +169,8 @@ static void run_docs(uint64_t idx, Ctx& c) {
     Bytes body;
     if (!encode_doc(k.enc, with_decl(g_docs[k.doc], k.declname), body)) { c.count("unencodable"); return; }
     Bytes bytes = (k.bom ? bom_of(k.enc) : Bytes()) + body;
-    if (k.bom && !strcmp(family(k.enc), "ucs4") && bytes.size() >= 49152 && !g_ucs4bom_witness) {
-        // known defect ucs4-bom-shift-overread: the sanitizer aborts the process; reported once by space "ucs4bom"
-        c.count("known_defect:ucs4-bom-shift-overread"); return;
-    }
-    if (k.exp == CONTRA && bytes.size() > 16384 && (k.declname == "UTF-16BE" || k.declname == "UTF-16LE" || k.declname == "UCS-4LE" || k.declname == "UCS-4BE") &&
-        strcmp(family(k.enc), "utf16") && strcmp(family(k.enc), "ucs4") && !g_misaligned_witness) {
-        // known defect contradictory-endian-decl-misaligned-read: UBSan aborts the process; reported once by space "misaligned"
-        c.count("known_defect:contradictory-endian-decl-misaligned-read"); return;
-    }
+    // (the guards that skipped documents hitting the former defects ucs4-bom-shift-overread and contradictory-endian-decl-misaligned-read were removed when
+    // the defects were repaired: a guard for a repaired defect would hide its return)
     ParseResult r = parse_bytes(bytes);
     std::string where = "\"doc\":" + jstr(doc_label(k.doc)) + ",\"encoding\":" + jstr(encdesc(k.enc)) + ",\"bom\":" + (k.bom ? "true" : "false") + ",\"declared\":" + jstr(k.declname) +
                         ",\"decl_kind\":" + jstr(k.declkind) + ",\"bytes_head_hex\":" + jstr(hexs(bytes.substr(0, 64)));
